@@ -358,6 +358,65 @@ pub fn gen_cases(mode: &str, tier: &str, seed: u64, out: &str) {
                 }
                 emit(&mut w, format!("h{}k{}-B", h, k), &c, sp2, at, st);
             }
+            // distorted pairs: atoms displaced by 0.25..0.45 symprec (lattice exact), premise validated by brute force
+            // (`residual_profile`): every operation of the generating group has a best-fit residual < 0.8 symprec and a
+            // pivot-anchored residual < 1.6 symprec for every choice of pivot (the code accepts at < symprec resp. < 2 symprec),
+            // nothing else below 1.3 symprec; the re-description always contains a reordering of the atoms.
+            let nd = if thorough { 530 } else { 90 };
+            let mut made = 0;
+            let mut k = 100000;
+            while made < nd {
+                k += 1;
+                let h = if thorough { ((k - 100001) % 530) as i32 + 1 } else { rng.range(1, 530) as i32 };
+                let nops = conv_ops(h).len();
+                if nops > 48 {
+                    continue; // keeps the O(n^2) premise validation cheap (at most 96 atoms)
+                }
+                let exact = crystal(h, &mut rng, 2);
+                let sp = *rng.pick(&[1e-4, 1e-3, 1e-2]);
+                let mut found = None;
+                for _try in 0..12 {
+                    let cand = exact.noise_atoms(&mut rng, 0.25 * sp, 0.45 * sp, 0.5);
+                    let prof = residual_profile(&cand.cell, 0.1);
+                    let good: Vec<&(f64, f64)> = prof.iter().filter(|x| x.0 < 0.8 * sp).collect();
+                    let near = prof.iter().filter(|x| x.0 < 1.3 * sp).count();
+                    if good.len() == nops && near == nops && good.iter().all(|x| x.1 < 1.6 * sp) {
+                        let rough = good.iter().any(|x| x.1 > 1.05 * sp);
+                        found = Some((cand, rough));
+                        break;
+                    }
+                }
+                let (mut base, rough) = match found {
+                    Some(x) => x,
+                    None => continue,
+                };
+                base.truth.steps.push(if rough { "distort-rough".into() } else { "distort".into() });
+                made += 1;
+                let at = AngleTolerance::Default;
+                let st = *rng.pick(&settings);
+                emit(&mut w, format!("h{}k{}-A", h, k), &base, sp, at, st);
+                let mut c = base.permute(&mut rng);
+                let mut sp2 = sp;
+                for _ in 0..rng.range(0, 3) {
+                    match rng.range(0, 5) {
+                        0 => {
+                            let len = rng.range(1, 6) as usize;
+                            let u = random_unimodular(&mut rng, len, 4);
+                            c = c.transform(&u, "rebase");
+                        }
+                        1 => c = c.shift_origin(&Vector3::new(rng.uniform(-1.0, 1.0), rng.uniform(-1.0, 1.0), rng.uniform(-1.0, 1.0))),
+                        2 => c = c.rotate(&random_rotation(&mut rng)),
+                        3 => c = c.add_integers(&mut rng),
+                        4 => {
+                            let f = *rng.pick(&[0.1, 0.5, 3.0, 10.0]);
+                            c = c.scale(f);
+                            sp2 *= f;
+                        }
+                        _ => c = c.permute(&mut rng),
+                    }
+                }
+                emit(&mut w, format!("h{}k{}-B", h, k), &c, sp2, at, st);
+            }
         }
         // atoms on tabulated Wyckoff positions (C07, C16(i)): generator in wyckoff.rs
         "wyckoff" => crate::wyckoff::gen_cases(thorough, seed, &mut rng, &mut |tag, c, sp, at, st| emit(&mut w, tag, c, sp, at, st)),
